@@ -659,3 +659,109 @@ func DatumDiff(s *Schema, a, b Datum) (path, locus string) {
 	}
 	return path, strings.Join(chain, ">")
 }
+
+// ZeroSizeFlood reports whether decoding b under s reaches an array whose items can encode to zero bytes with a
+// declared block count above limit (in absolute value): a few input bytes then legitimately stand for that many
+// items. The walk follows the reference decoder and stops (false) at the first thing it would reject.
+func ZeroSizeFlood(s *Schema, b []byte, limit int64) bool {
+	w := floodWalker{decoder: decoder{b: b}, limit: limit}
+	w.walk(s, 0)
+	return w.flood
+}
+
+// HasZeroSizeArray: the schema contains an array whose items can encode to zero bytes.
+func HasZeroSizeArray(s *Schema) bool {
+	switch s.Type {
+	case "array":
+		return minSize(s.Items) == 0 || HasZeroSizeArray(s.Items)
+	case "map":
+		return HasZeroSizeArray(s.Values)
+	case "record":
+		for _, f := range s.Fields {
+			if HasZeroSizeArray(f.Type) {
+				return true
+			}
+		}
+	case "union":
+		for _, br := range s.Branches {
+			if HasZeroSizeArray(br) {
+				return true
+			}
+		}
+	}
+	return false
+}
+
+type floodWalker struct {
+	decoder
+	limit int64
+	flood bool
+	steps int
+}
+
+// walk returns false when the walk must stop (flood found, input rejected or work bound reached).
+func (w *floodWalker) walk(s *Schema, depth int) bool {
+	w.steps++
+	if depth > 64 || w.steps > 1<<20 {
+		return false
+	}
+	switch s.Type {
+	case "record":
+		for _, f := range s.Fields {
+			if !w.walk(f.Type, depth+1) {
+				return false
+			}
+		}
+		return true
+	case "union":
+		sel, err := w.long()
+		if err != nil || sel < 0 || sel >= int64(len(s.Branches)) {
+			return false
+		}
+		return w.walk(s.Branches[sel], depth+1)
+	case "array", "map":
+		for {
+			cnt, err := w.long()
+			if err != nil {
+				return false
+			}
+			if cnt == 0 {
+				return true
+			}
+			if cnt < 0 {
+				if cnt == math.MinInt64 {
+					return false
+				}
+				cnt = -cnt
+				if _, err := w.long(); err != nil {
+					return false
+				}
+			}
+			if s.Type == "array" && minSize(s.Items) == 0 && cnt > w.limit {
+				w.flood = true
+				return false
+			}
+			if cnt > int64(len(w.b)-w.i)+1 && !(s.Type == "array" && minSize(s.Items) == 0) {
+				return false
+			}
+			for ; cnt > 0; cnt-- {
+				if s.Type == "map" {
+					if !w.walk(Prim("string"), depth+1) || !w.walk(s.Values, depth+1) {
+						return false
+					}
+				} else if !w.walk(s.Items, depth+1) {
+					return false
+				}
+			}
+		}
+	case "boolean":
+		_, err := w.next(1) // any byte: the walk is more lenient than the reference decoder wherever a reader might be
+		return err == nil
+	case "int", "long", "enum":
+		_, err := w.long()
+		return err == nil
+	default:
+		_, err := w.decode(s, depth)
+		return err == nil
+	}
+}
